@@ -1,7 +1,643 @@
-//! Witness searches (boundary lattices) for failed obligations; each returns a JSON description that `replay` re-executes.
-pub fn search(_pid: &str, _obligations: &[String]) -> Option<String> {
+//! Witness searches for failed obligations: boundary lattices / small exhaustive spaces executed against the real crate and
+//! compared with a plain-Rust oracle.  A hit is printed as `{"search":NAME,"params":[..]}` and re-executed by `replay`.
+//! This code only *decorates* an already failed proof with a concrete input; it can never create a violation.
+use crate::oracle::*;
+use dvb_gse_rust::crc::{CrcCalculator, DefaultCrc};
+use dvb_gse_rust::gse_decap::{DecapContext, DecapError, DecapMemoryError, DecapStatus, Decapsulator, GetLabelorFragIdError, GseDecapMemory, LabelorFragId, SimpleGseMemory};
+use dvb_gse_rust::gse_decap::read_gse_header;
+use dvb_gse_rust::gse_encap::{encap_frag_preview, encap_preview, generate_gse_header, ContextFrag, EncapMetadata, EncapStatus, Encapsulator};
+use dvb_gse_rust::header_extension::{Extension, SimpleMandatoryExtensionHeaderManager};
+use dvb_gse_rust::label::Label;
+use dvb_gse_rust::utils::{GseCompletePacket, GseEndFragPacket, GseFirstFragPacket, GseIntermediatePacket, Serialisable};
+
+type P = Vec<i64>;
+type Dec = Decapsulator<SimpleGseMemory, DefaultCrc, SimpleMandatoryExtensionHeaderManager>;
+
+const SIZES: &[i64] = &[0, 1, 2, 3, 4, 5, 6, 7, 9, 10, 12, 13, 14, 20, 100, 4085, 4086, 4087, 4088, 4089, 4090, 4091, 4092, 4093, 4094, 4095, 4096,
+    4097, 4098, 4099, 4100, 4104, 5000, 8190, 8200, 65525, 65527, 65528, 65530, 65531, 65533, 65534, 65535, 65536, 65539, 65543, 70000];
+const SMALL: &[i64] = &[0, 1, 2, 3, 4, 5, 6, 7, 9, 10, 12, 13, 14, 20, 100, 4090, 4093, 4094, 4095, 4096, 4097, 4098, 4100, 5000];
+const PTYPES: &[i64] = &[0x0800, 0x0600, 0xFFFF, 0x81, 0xFF, 0x100, 0x5FF];
+
+fn label_of(kind: i64) -> Label {
+    match kind { 0 => Label::SixBytesLabel([1, 2, 3, 4, 5, 6]), 1 => Label::ThreeBytesLabel([7, 8, 9]), 2 => Label::Broadcast, 3 => Label::ReUse,
+                 5 => Label::ThreeBytesLabel([0, 0, 0]), _ => Label::SixBytesLabel([0; 6]) }
+}
+fn lbytes(l: &Label) -> Vec<u8> { match l { Label::SixBytesLabel(b) => b.to_vec(), Label::ThreeBytesLabel(b) => b.to_vec(), _ => vec![] } }
+fn lt_of(l: &Label) -> u8 { match l { Label::SixBytesLabel(_) => 0, Label::ThreeBytesLabel(_) => 1, Label::Broadcast => 2, Label::ReUse => 3 } }
+fn pdu_of(n: usize) -> Vec<u8> { (0..n).map(|i| (i * 7 + 3) as u8).collect() }
+fn enc() -> Encapsulator<DefaultCrc> { Encapsulator::new(DefaultCrc {}) }
+fn dec(slots: usize, size: usize, nbuf: usize) -> Dec {
+    let mut m = SimpleGseMemory::new(slots, size, 0, 0);
+    for _ in 0..nbuf { let _ = m.provision_storage(vec![0u8; size].into_boxed_slice()); }
+    Decapsulator::new(m, DefaultCrc {}, SimpleMandatoryExtensionHeaderManager {})
+}
+
+// ----------------------------------------------------------------------------------------------------------------
+// 1. encap: [pdu_len, buf_len, label_kind, ptype, sent_before]
+fn s_enc(p: &P) -> Option<String> {
+    let (pl, bl, lk, pt, before) = (p[0] as usize, p[1] as usize, p[2], p[3] as u16, p[4] != 0);
+    let label = label_of(lk);
+    let pdu = pdu_of(pl);
+    let mut e = enc();
+    if before { let mut big = vec![0u8; 64]; let _ = e.encap(&[1, 2, 3], 9, EncapMetadata::new(0x0800, label), &mut big); }
+    let snap = e.clone();
+    let mut buf: Vec<u8> = (0..bl).map(|i| (i % 251) as u8 ^ 0x5A).collect();
+    let orig = buf.clone();
+    let md = EncapMetadata::new(pt, label);
+    let res = match no_panic(|| e.encap(&pdu, 5, md, &mut buf)) { Ok(r) => r, Err(_) => return Some("encap panicked".into()) };
+    let prev = match no_panic(|| encap_preview(&pdu, md, &orig)) { Ok(r) => r, Err(_) => return Some("encap_preview panicked".into()) };
+    let zero = lk == 4;
+    let bad_pt = (0x100..0x600).contains(&pt);
+    match &res {
+        Err(err) => {
+            if buf != orig { return Some("Err but the buffer was modified".into()); }
+            if e != snap { return Some("Err but the encapsulator state changed".into()); }
+            if !before { if let Ok(pv) = &prev { return Some(format!("encap Err({:?}) but preview Ok({:?})", err, pv)); }
+                         if let Err(pe) = &prev { if pe != err { return Some(format!("encap Err({:?}) vs preview Err({:?})", err, pe)); } } }
+            // with the label written in full, does it have to succeed?
+            let ll = lbytes(&label).len();
+            if !zero && !bad_pt && pl + 2 + ll <= 0xFFFF && bl >= 7 + ll && !(before && lk <= 1) { return Some(format!("refused although a first fragment fits: {:?}", err)); }
+            None
+        }
+        Ok(st) => {
+            if zero { return Some("zero 6-byte label accepted".into()); }
+            if bad_pt { return Some("protocol type in 0x100..0x600 accepted".into()); }
+            let (n, ctx) = match st { EncapStatus::CompletedPkt(n) => (*n as usize, None), EncapStatus::FragmentedPkt(n, c) => (*n as usize, Some(*c)) };
+            if n > bl { return Some(format!("reported length {n} exceeds the buffer {bl}")); }
+            if buf[n..] != orig[n..] { return Some("bytes at or beyond the reported length were modified".into()); }
+            let h = match parse_hdr(&buf[..n]) { Some(h) => h, None => return Some("packet shorter than a header".into()) };
+            if h.gse_len + 2 != n { return Some(format!("GSE length field {} but {} bytes reported", h.gse_len, n)); }
+            if h.gse_len > 4095 { return Some("GSE length above 4095".into()); }
+            let written = if h.lt == 3 && lk != 3 { if !(before && lk <= 1) { return Some("label replaced by re-use although nothing permits it".into()); } Label::ReUse } else { label };
+            if h.lt != lt_of(&written) { return Some("label type bits do not match the label".into()); }
+            let lw = lbytes(&written);
+            if pl + 2 + lw.len() > 0xFFFF { return Some("PDU exceeding the 16-bit total length was accepted".into()); }
+            let fits = 2 + lw.len() + pl <= 4095 && bl >= 4 + lw.len() + pl;
+            match ctx {
+                None => {
+                    if !(h.s && h.e) { return Some("completed status but S/E bits are not 11".into()); }
+                    if !fits { return Some("completed although it does not fit".into()); }
+                    if n != 4 + lw.len() + pl { return Some("wrong length of the complete packet".into()); }
+                    if buf[2..4] != pt.to_be_bytes() || buf[4..4 + lw.len()] != lw[..] || buf[4 + lw.len()..n] != pdu[..] { return Some("fields of the complete packet are wrong".into()); }
+                    if !before { match &prev { Ok(pv) if pv.pkt_len() as usize == n && format!("{:?}", pv.pkt_type()) == "CompletePkt" => {}, other => return Some(format!("preview disagrees: {:?}", other)) } }
+                }
+                Some(c) => {
+                    if !(h.s && !h.e) { return Some("fragmented status but S/E bits are not 10".into()); }
+                    if fits { return Some("fragmented although a complete packet fits".into()); }
+                    let k = c.len_pdu_frag() as usize;
+                    if n != 7 + lw.len() + k { return Some(format!("context counts {k} bytes but the packet carries {}", n as i64 - 7 - lw.len() as i64)); }
+                    if k >= pl.max(1) && pl > 0 || (pl == 0 && k != 0) { return Some("first fragment is not a proper prefix".into()); }
+                    let total = (pl + 2 + lw.len()) as u16;
+                    if buf[2] != 5 || buf[3..5] != total.to_be_bytes() || buf[5..7] != pt.to_be_bytes() || buf[7..7 + lw.len()] != lw[..] || buf[7 + lw.len()..n] != pdu[..k] { return Some("fields of the first fragment are wrong".into()); }
+                    if c.frag_id() != 5 { return Some("frag id of the context".into()); }
+                    let mut d = total.to_be_bytes().to_vec(); d.extend_from_slice(&pt.to_be_bytes()); d.extend_from_slice(&lw); d.extend_from_slice(&pdu);
+                    if c.crc() != crc_mpeg2(&d) { return Some("context CRC is not CRC-32/MPEG-2 over total length, protocol type, label written, PDU".into()); }
+                    if !before { match &prev { Ok(pv) if pv.pkt_len() as usize == n && format!("{:?}", pv.pkt_type()) == "FirstFragPkt" => {}, other => return Some(format!("preview disagrees: {:?} vs FragmentedPkt({n})", other)) } }
+                }
+            }
+            None
+        }
+    }
+}
+fn g_enc() -> Vec<P> {
+    let mut v = vec![];
+    for &pl in SIZES { for &bl in SIZES { for lk in [0, 1, 2, 3, 4] { for &pt in PTYPES { for before in [0, 1] {
+        if (pt != 0x0800 && pt != 0x81 && pt != 0x100) && !(pl <= 13 && bl <= 20) { continue; }
+        if before == 1 && lk > 1 { continue; }
+        v.push(vec![pl, bl, lk, pt, before]);
+    } } } } }
+    v
+}
+
+// ----------------------------------------------------------------------------------------------------------------
+// 2. encap_frag: [pdu_len, ctx_len, buf_len]
+fn s_frag(p: &P) -> Option<String> {
+    let (pl, cl, bl) = (p[0] as usize, p[1] as usize, p[2] as usize);
+    let pdu = pdu_of(pl);
+    let ctx = ContextFrag::new(9, 0xA1B2C3D4, cl as u16);
+    let mut buf: Vec<u8> = (0..bl).map(|i| (i % 253) as u8 ^ 0x33).collect();
+    let orig = buf.clone();
+    let e = enc();
+    let res = match no_panic(|| e.encap_frag(&pdu, &ctx, &mut buf)) { Ok(r) => r, Err(_) => return Some("encap_frag panicked".into()) };
+    let prev = match no_panic(|| encap_frag_preview(&pdu, &ctx, &orig)) { Ok(r) => r, Err(_) => return Some("encap_frag_preview panicked".into()) };
+    match &res {
+        Err(err) => {
+            if buf != orig { return Some("Err but the buffer was modified".into()); }
+            if cl <= pl && bl >= 7 { return Some(format!("buffer of {bl} >= 7 bytes refused: {:?}", err)); }
+            match &prev { Err(pe) if pe == err => {}, other => return Some(format!("preview disagrees: {:?} vs Err({:?})", other, err)) }
+            None
+        }
+        Ok(st) => {
+            if cl > pl { return Some("context beyond the PDU accepted".into()); }
+            let rem = pl - cl;
+            let (n, c2) = match st { EncapStatus::CompletedPkt(n) => (*n as usize, None), EncapStatus::FragmentedPkt(n, c) => (*n as usize, Some(*c)) };
+            if n > bl { return Some(format!("reported length {n} exceeds the buffer {bl}")); }
+            if buf[n..] != orig[n..] { return Some("bytes at or beyond the reported length were modified".into()); }
+            let h = parse_hdr(&buf[..n])?;
+            if h.gse_len + 2 != n { return Some(format!("GSE length field {} but {} bytes reported", h.gse_len, n)); }
+            if h.lt != 3 { return Some("continuation packet without label type 11".into()); }
+            if buf[2] != 9 { return Some("frag id".into()); }
+            match c2 {
+                None => {
+                    if h.s || !h.e { return Some("completed status but S/E bits are not 01".into()); }
+                    if n != rem + 7 { return Some("end packet length".into()); }
+                    if buf[3..3 + rem] != pdu[cl..] || buf[3 + rem..n] != 0xA1B2C3D4u32.to_be_bytes() { return Some("end packet payload / CRC".into()); }
+                    match &prev { Ok(pv) if pv.pkt_len() as usize == n && pv.pdu_len() == rem && format!("{:?}", pv.pkt_type()) == "EndFragPkt" => {}, other => return Some(format!("preview disagrees: {:?}", other)) }
+                }
+                Some(c) => {
+                    if h.s || h.e { return Some("fragmented status but S/E bits are not 00".into()); }
+                    let k = n - 3;
+                    if k == 0 { return Some("empty intermediate fragment".into()); }
+                    if c.len_pdu_frag() as usize != cl + k { return Some(format!("context advanced to {} but {} bytes were written", c.len_pdu_frag(), k)); }
+                    if c.frag_id() != 9 || c.crc() != 0xA1B2C3D4 { return Some("frag id / CRC of the context changed".into()); }
+                    if k > rem || buf[3..n] != pdu[cl..cl + k] { return Some("intermediate payload".into()); }
+                    match &prev { Ok(pv) if pv.pkt_len() as usize == n && pv.pdu_len() == k && format!("{:?}", pv.pkt_type()) == "IntermediateFragPkt" => {}, other => return Some(format!("preview disagrees: {:?}", other)) }
+                }
+            }
+            None
+        }
+    }
+}
+fn g_frag() -> Vec<P> {
+    let mut v = vec![];
+    for &pl in SIZES { if pl > 65535 { continue; } for d in [0i64, 1, 2, 3, 4, 5, 7, 100, 4085, 4088, 4089, 4090, 4091, 4092, 4094, 4095, 4096, 5000, 60000] {
+        let cl = pl - d; if cl < 0 { continue; }
+        for &bl in SIZES { v.push(vec![pl, cl, bl]); }
+    } }
+    for &pl in SMALL { v.push(vec![pl, pl + 1, 100]); }
+    v
+}
+
+// ----------------------------------------------------------------------------------------------------------------
+// 3. whole transfer: [pdu_len, label_kind, first_buf, next_buf, storage, sent_before, frag_id, slots]
+fn s_transfer(p: &P) -> Option<String> {
+    let (pl, lk, b0, b1, storage, before, fid, slots) = (p[0] as usize, p[1], p[2] as usize, p[3] as usize, p[4] as usize, p[5] != 0, p[6] as u8, p[7] as usize);
+    let label = label_of(lk);
+    let pdu = pdu_of(pl);
+    let mut e = enc();
+    let mut d = dec(slots, storage, 2);
+    if before {
+        let mut big = vec![0u8; 64];
+        if let Ok(EncapStatus::CompletedPkt(n)) = e.encap(&[1, 2, 3], 9, EncapMetadata::new(0x0800, label), &mut big) {
+            match d.decap(&big[..n as usize]) { Ok((DecapStatus::CompletedPkt(b, _), _)) => { let _ = d.provision_storage(b); } _ => return Some("priming packet not delivered".into()) }
+        }
+    }
+    let mut pkts: Vec<Vec<u8>> = vec![];
+    let mut buf = vec![0u8; b0];
+    let mut st = match no_panic(|| e.encap(&pdu, fid, EncapMetadata::new(0x0800, label), &mut buf)) { Ok(Ok(s)) => s, Ok(Err(_)) => return None, Err(_) => return Some("encap panicked".into()) };
+    let mut guard = 0;
+    loop {
+        match st {
+            EncapStatus::CompletedPkt(n) => { pkts.push(buf[..n as usize].to_vec()); break; }
+            EncapStatus::FragmentedPkt(n, c) => {
+                pkts.push(buf[..n as usize].to_vec());
+                buf = vec![0u8; b1];
+                st = match no_panic(|| e.encap_frag(&pdu, &c, &mut buf)) { Ok(Ok(s)) => s, Ok(Err(_)) => return if b1 >= 7 { Some("continuation refused a buffer >= 7".into()) } else { None }, Err(_) => return Some("encap_frag panicked".into()) };
+            }
+        }
+        guard += 1; if guard > pl + 5 { return Some("transfer does not finish within remaining+1 calls".into()); }
+    }
+    let expect_label = if lk == 3 { return None } else { label };
+    for (i, pk) in pkts.iter().enumerate() {
+        let last = i + 1 == pkts.len();
+        match no_panic(|| d.decap(pk)) {
+            Err(_) => return Some(format!("decap panicked on packet {i}")),
+            Ok(Ok((DecapStatus::CompletedPkt(b, md), n))) => {
+                if !last { return Some("completed before the last packet".into()); }
+                if n != pk.len() { return Some(format!("consumed {n} of {}", pk.len())); }
+                if md.pdu_len() != pl || b[..pl] != pdu[..] { return Some("delivered PDU differs from the original".into()); }
+                if md.protocol_type() != 0x0800 || md.label() != expect_label { return Some(format!("delivered metadata {:?}", md)); }
+            }
+            Ok(Ok((DecapStatus::FragmentedPkt(md), n))) => {
+                if last { return Some("no completed PDU at the last packet".into()); }
+                if n != pk.len() { return Some(format!("consumed {n} of {}", pk.len())); }
+                if md.protocol_type() != 0x0800 || md.label() != expect_label { return Some(format!("fragment metadata {:?}", md)); }
+            }
+            Ok(Ok((DecapStatus::Padding, _))) => return Some("packet read as padding".into()),
+            Ok(Err((err, _))) => return Some(format!("packet {i} of {} rejected: {:?}", pkts.len(), err)),
+        }
+    }
     None
 }
-pub fn replay(_w: &str) -> Option<String> {
+fn g_transfer() -> Vec<P> {
+    let mut v = vec![];
+    for &pl in &[0i64, 1, 2, 5, 13, 30, 100, 4087, 4088, 4089, 4090, 4091, 4093, 4094, 4095, 4096, 5000, 12267, 12268, 65525, 65533] {
+        for lk in [0i64, 1, 2, 5] { for &(b0, b1) in &[(13i64, 13i64), (14, 7), (20, 8), (100, 100), (4097, 4097), (4098, 4098), (4500, 4500), (70000, 70000), (13, 70000), (4097, 13)] {
+            for before in [0i64, 1] { if before == 1 && lk > 1 { continue; }
+                for &(fid, slots) in &[(0i64, 1i64), (7, 4)] { v.push(vec![pl, lk, b0, b1, 70000.max(pl), before, fid, slots]); v.push(vec![pl, lk, b0, b1, pl.max(16), before, fid, slots]); } } } } }
+    v
+}
+
+// ----------------------------------------------------------------------------------------------------------------
+// 4. decap on short / truncated buffers: [b0, b1, len, fill, state]
+fn s_decap_bytes(p: &P) -> Option<String> {
+    let (b0, b1, len, fill, state) = (p[0] as u8, p[1] as u8, p[2] as usize, p[3] as u8, p[4]);
+    let mut d = dec(2, 64, 2);
+    if state >= 1 { let mut f = vec![0xA0, 9, fill, 0, 40, 0x08, 0x00]; f.extend_from_slice(&[1u8; 4]); let _ = d.decap(&f); }
+    if state >= 2 { let _ = d.decap(&[0xD0, 6, 0x08, 0x00, 1, 2, 3, 9]); }
+    let mut buf = vec![b0, b1]; buf.truncate(len); while buf.len() < len { buf.push(fill); }
+    match no_panic(|| d.decap(&buf)) {
+        Err(_) => Some("decap panicked".into()),
+        Ok(r) => { let n = match r { Ok((_, n)) => n, Err((_, n)) => n };
+            if n > buf.len() { Some(format!("consumed {n} of {}", buf.len())) } else if !buf.is_empty() && n < buf.len().min(2) { Some(format!("consumed only {n}")) } else {
+                match no_panic(|| d.get_label_or_frag_id(&buf)) { Err(_) => Some("get_label_or_frag_id panicked".into()), Ok(_) => None } } }
+    }
+}
+fn g_decap_bytes() -> Vec<P> {
+    let mut v = vec![];
+    for hi in 0..16i64 { for lo in [0i64, 1, 2, 3, 4, 5, 6, 7, 8, 9, 10, 11, 12, 13, 20] { for len in 0..16i64 { for fill in [0i64, 1, 2, 0xFF] { for st in [0i64, 1, 2] {
+        v.push(vec![hi << 4, lo, len, fill, st]);
+    } } } } }
+    v
+}
+
+// ----------------------------------------------------------------------------------------------------------------
+// 5. receiver histories over a packet alphabet: [slots, a, b, c]  -- conservation (C08), isolation (C07), recovery (C16), totality (C05)
+fn crc_for(pdu: &[u8], pt: u16, total: u16, lab: &[u8]) -> u32 { (DefaultCrc {}).calculate_crc32(pdu, pt, total, lab) }
+fn alphabet(id: i64) -> Vec<u8> {
+    let first = |fid: u8, total: u16, n: usize| { let mut f = vec![0xA0, (5 + n) as u8, fid]; f.extend_from_slice(&total.to_be_bytes()); f.extend_from_slice(&[0x08, 0x00]); f.extend(std::iter::repeat(7u8).take(n)); f };
+    let inter = |fid: u8, n: usize| { let mut f = vec![0x30, (1 + n) as u8, fid]; f.extend(std::iter::repeat(8u8).take(n)); f };
+    let end = |fid: u8, n: usize, crc: u32| { let mut f = vec![0x70, (5 + n) as u8, fid]; f.extend(std::iter::repeat(9u8).take(n)); f.extend_from_slice(&crc.to_be_bytes()); f };
+    match id {
+        0 => vec![0xE0, 6, 0x08, 0x00, 1, 2, 3, 4],                         // complete, broadcast
+        1 => vec![0xF0, 4, 0x08, 0x00, 1, 2],                               // complete, re-use (no label remembered at first)
+        2 => vec![0xD0, 7, 0x08, 0x00, 7, 8, 9, 1, 2],                      // complete, 3-byte label
+        3 => first(1, 14, 4),                                               // first fragment id 1: total 14 = 12 + 2
+        4 => first(3, 14, 4),                                               // aliases id 1 in a 2-slot memory
+        5 => first(1, 4000, 30),                                            // larger than the 16-byte storage
+        6 => inter(1, 4),
+        7 => inter(3, 4),                                                   // stray / aliasing id
+        8 => inter(1, 40),                                                  // oversize
+        9 => { let pdu: Vec<u8> = [7u8; 4].iter().chain([8u8; 4].iter()).chain([9u8; 4].iter()).cloned().collect(); end(1, 4, crc_for(&pdu, 0x0800, 14, &[])) } // valid after 3,6
+        10 => end(1, 4, 0xDEADBEEF),                                        // bad CRC
+        11 => end(3, 4, 0),                                                 // unknown / aliasing id
+        12 => vec![0xC0, 8, 0x08, 0x00, 0, 0, 0, 0, 0, 0],                  // zero label
+        13 => vec![0xE0, 5, 0x00, 0x05, 1, 2, 3],                           // unknown mandatory extension
+        14 => vec![0, 0, 0, 0],                                             // padding
+        _ => vec![0xE0, 40, 0x08, 0x00, 1],                                 // truncated
+    }
+}
+const NALPHA: i64 = 16;
+fn drain(d: &mut Dec) -> usize {
+    let mut n = 0;
+    while let Ok(_) = d.new_pdu() { n += 1; if n > 100 { break; } }
+    for f in 0..=255u8 { if d.memory.take_frag(f).is_ok() { n += 1; } }
+    n
+}
+fn s_history(p: &P) -> Option<String> {
+    let slots = p[0] as usize;
+    let mut d = dec(slots, 16, 3);
+    let provisioned = 3usize;
+    let mut out = 0usize;
+    for &a in &p[1..] {
+        let pk = alphabet(a);
+        match no_panic(|| d.decap(&pk)) {
+            Err(_) => return Some(format!("decap panicked on packet kind {a}")),
+            Ok(Ok((DecapStatus::CompletedPkt(_, _), _))) => out += 1,
+            Ok(Err((DecapError::ErrorMemory(DecapMemoryError::StorageOverflow(_)), _))) | Ok(Err((DecapError::ErrorMemory(DecapMemoryError::BufferTooSmall(_)), _))) => out += 1,
+            Ok(r) => { let n = match r { Ok((_, n)) => n, Err((_, n)) => n }; if n > pk.len() || n < pk.len().min(2) { return Some(format!("consumed {n} of {}", pk.len())); } }
+        }
+    }
+    // isolation: id 1 opened by kind 3 and never touched by another kind-1 packet must still be there
+    let opened = p[1..].iter().position(|&a| a == 3);
+    if let Some(i) = opened {
+        let later = &p[1 + i + 1..];
+        let touched = later.iter().any(|&a| matches!(a, 3 | 5 | 6 | 8 | 9 | 10) || (a == 4 && slots <= 2));
+        if !touched { if d.memory.take_frag(1).is_err() { return Some("reassembly of id 1 destroyed by packets of other ids".into()); } else { out += 1; } }
+    }
+    let got = drain(&mut d);
+    if got + out != provisioned { return Some(format!("{provisioned} buffers provisioned, {} accounted for", got + out)); }
     None
 }
+fn s_recover(p: &P) -> Option<String> {
+    let slots = p[0] as usize;
+    let mut d = dec(slots, 16, 3);
+    for &a in &p[1..] { let pk = alphabet(a); if no_panic(|| d.decap(&pk).is_ok()).is_err() { return Some("decap panicked".into()); } }
+    d.reset_last_label();
+    let _ = d.provision_storage(vec![0u8; 16].into_boxed_slice());
+    match d.decap(&alphabet(2)) { Ok((DecapStatus::CompletedPkt(b, md), 9)) if md.pdu_len() == 2 && b[..2] == [1, 2] && md.label() == Label::ThreeBytesLabel([7, 8, 9]) => { let _ = d.provision_storage(b); }
+        other => return Some(format!("probe complete packet not delivered after the history: {:?}", other.map(|x| x.1).map_err(|x| x.0))) }
+    for id in [3i64, 6, 9] {
+        match d.decap(&alphabet(id)) { Ok(_) => {}, Err((e, _)) => return Some(format!("probe fragmented transfer on id 1 refused after the history: {:?}", e)) }
+    }
+    None
+}
+fn g_history() -> Vec<P> {
+    let mut v = vec![];
+    for slots in [1i64, 2, 4] { for a in 0..NALPHA { for b in 0..NALPHA { v.push(vec![slots, a, b]); for c in 0..NALPHA { v.push(vec![slots, a, b, c]); } } } }
+    v
+}
+
+// ----------------------------------------------------------------------------------------------------------------
+// 6. header codec: [word]
+fn s_codec(p: &P) -> Option<String> {
+    let w = p[0] as u16;
+    match no_panic(|| read_gse_header(w)) {
+        Err(_) => Some("read_gse_header panicked".into()),
+        Ok(None) => if w >> 12 == 0 { None } else { Some("non-padding word decodes to no packet".into()) },
+        Ok(Some((len, k, t))) => { if w >> 12 == 0 { return Some("padding word decodes to a packet".into()); }
+            if len > 4095 || generate_gse_header(&k, &t, len as u16) != w { Some("re-encoding does not reproduce the word".into()) } else { None } }
+    }
+}
+
+// ----------------------------------------------------------------------------------------------------------------
+// 7. bundled memory against a model: [slots, op, op, ...] with op = kind * 16 + id
+fn s_memory(p: &P) -> Option<String> {
+    let slots = p[0] as usize;
+    let mut m = SimpleGseMemory::new(slots, 8, 0, 0);
+    let mut free: Vec<u8> = vec![];
+    let mut slot: Vec<Option<(u8, u8)>> = vec![None; slots];
+    let mut tag = 1u8;
+    let cap = match std::panic::catch_unwind(|| { let mut m = SimpleGseMemory::new(slots, 8, 0, 0); let mut n = 0; while m.provision_storage(vec![0u8; 8].into_boxed_slice()).is_ok() { n += 1; if n > 64 { break; } } n }) { Ok(n) => n, Err(_) => return Some("panic".into()) };
+    let ctx = |fid: u8| DecapContext::new(Label::Broadcast, 0x0800, fid, 100, 0, false, vec![]);
+    for &op in &p[1..] {
+        let (kind, id) = (op / 16, (op % 16) as u8);
+        let r = no_panic(|| match kind {
+            0 => { let size = if id == 0 { 4 } else { 8 }; let mut b = vec![0u8; size].into_boxed_slice(); b[0] = tag;
+                   match m.provision_storage(b) { Ok(()) => { if size < 8 || free.len() >= cap { return Some("provision accepted a buffer it must refuse".to_string()); } free.push(tag); tag += 1; None }
+                       Err(DecapMemoryError::StorageOverflow(b)) => if free.len() < cap || b[0] != tag { Some("StorageOverflow with room / other buffer handed back".into()) } else { None },
+                       Err(DecapMemoryError::BufferTooSmall(b)) => if size >= 8 || b[0] != tag { Some("BufferTooSmall for a large enough buffer".into()) } else { None },
+                       Err(e) => Some(format!("unexpected {:?}", e)) } }
+            1 => match m.new_pdu() { Ok(b) => match free.pop() { Some(t) if t == b[0] => None, _ => Some("new_pdu returned a buffer that was not free".into()) },
+                                    Err(DecapMemoryError::StorageUnderflow) => if free.is_empty() { None } else { Some("new_pdu failed with a free buffer".into()) }, Err(e) => Some(format!("unexpected {:?}", e)) },
+            2 => { if slots == 0 { return match m.new_frag(ctx(id)) { Err(_) => None, Ok(_) => Some("new_frag on a memory without slots".into()) }; }
+                   let i = id as usize % slots; let old = slot[i].take();
+                   match m.new_frag(ctx(id)) { Ok((c, b)) => { if c.frag_id != id { return Some("new_frag returned another context".into()); }
+                           match old { Some((_, t)) => if b[0] != t { return Some("new_frag did not reuse the slot's buffer".into()); }, None => match free.pop() { Some(t) if t == b[0] => {}, _ => return Some("new_frag took a buffer that was not free".into()) } }
+                           // the caller now owns (c, b); put it back so the model stays simple
+                           let t = b[0]; match m.save_frag((c, b)) { Ok(()) => { slot[i] = Some((id, t)); None }, Err(e) => Some(format!("save_frag into the freed slot refused: {:?}", e)) } }
+                       Err(DecapMemoryError::StorageUnderflow) => { if old.is_some() || !free.is_empty() { Some("new_frag failed although a buffer was available".into()) } else { None } }
+                       Err(e) => Some(format!("unexpected {:?}", e)) } }
+            3 => { if slots == 0 { return match m.take_frag(id) { Err(DecapMemoryError::UndefinedId) => None, _ => Some("take_frag on a memory without slots".into()) }; }
+                   let i = id as usize % slots;
+                   match m.take_frag(id) { Ok((c, b)) => match slot[i] { Some((f, t)) if f == id && c.frag_id == id && b[0] == t => { match m.save_frag((c, b)) { Ok(()) => None, Err(_) => Some("save_frag after take_frag refused".into()) } }, _ => Some("take_frag returned a context that was not saved under this id".into()) },
+                       Err(DecapMemoryError::UndefinedId) => match slot[i] { Some((f, _)) if f == id => Some("take_frag lost a saved context".into()), _ => None },
+                       Err(e) => Some(format!("unexpected {:?}", e)) } }
+            _ => { if slots == 0 { return None; } let i = id as usize % slots;
+                   let b = { let mut b = vec![0u8; 8].into_boxed_slice(); b[0] = 200; b };
+                   match m.save_frag((ctx(id), b)) { Ok(()) => if slot[i].is_some() { Some("save_frag into an occupied slot accepted".into()) } else { slot[i] = Some((id, 200)); None },
+                       Err(DecapMemoryError::MemoryCorrupted) => if slot[i].is_none() { Some("save_frag into a free slot refused".into()) } else { None }, Err(e) => Some(format!("unexpected {:?}", e)) } }
+        });
+        match r { Err(_) => return Some("memory operation panicked".into()), Ok(Some(m)) => return Some(m), Ok(None) => {} }
+        // the model's view of every slot must be retrievable: checked lazily by later take_frag operations
+    }
+    None
+}
+fn g_memory() -> Vec<P> {
+    let ops: Vec<i64> = vec![0 * 16 + 1, 0 * 16, 16, 2 * 16 + 1, 2 * 16 + 3, 2 * 16 + 2, 3 * 16 + 1, 3 * 16 + 3, 3 * 16 + 2, 4 * 16 + 1, 4 * 16 + 3];
+    let mut v = vec![];
+    for slots in [1i64, 2, 3, 4, 0] { for &a in &ops { for &b in &ops { for &c in &ops { v.push(vec![slots, 1, 1, a, b, c]); for &d in &[2 * 16 + 1, 3 * 16 + 1, 3 * 16 + 3, 16] { v.push(vec![slots, 1, 1, 1, 1, 1, a, b, c, d]); } } } } }
+    v
+}
+
+// ----------------------------------------------------------------------------------------------------------------
+// 8. peek vs decap on encapsulator packets: [pdu_len, label_kind, buf_len, sent_before, trailing]
+fn s_peek(p: &P) -> Option<String> {
+    let (pl, lk, bl, before, trailing) = (p[0] as usize, p[1], p[2] as usize, p[3] != 0, p[4] as usize);
+    let label = label_of(lk); let pdu = pdu_of(pl);
+    let mut e = enc(); let mut d = dec(2, 70000, 2);
+    if before { let mut big = vec![0u8; 64]; if let Ok(EncapStatus::CompletedPkt(n)) = e.encap(&[1], 9, EncapMetadata::new(0x0800, label), &mut big) { if let Ok((DecapStatus::CompletedPkt(b, _), _)) = d.decap(&big[..n as usize]) { let _ = d.provision_storage(b); } } }
+    let mut buf = vec![0u8; bl];
+    let st = match e.encap(&pdu, 6, EncapMetadata::new(0x0800, label), &mut buf) { Ok(s) => s, Err(_) => return None };
+    let mut pkts = vec![];
+    let mut cur = st;
+    loop { match cur { EncapStatus::CompletedPkt(n) => { pkts.push(buf[..n as usize].to_vec()); break; }
+        EncapStatus::FragmentedPkt(n, c) => { pkts.push(buf[..n as usize].to_vec()); buf = vec![0u8; bl.max(8)]; cur = match e.encap_frag(&pdu, &c, &mut buf) { Ok(s) => s, Err(_) => return None }; } }
+        if pkts.len() > 70000 { return None; } }
+    for (i, pk) in pkts.iter().enumerate() {
+        let mut shown = pk.clone(); shown.extend(std::iter::repeat(0xEEu8).take(trailing));
+        let peek = match no_panic(|| d.get_label_or_frag_id(&shown)) { Ok(r) => r, Err(_) => return Some("get_label_or_frag_id panicked".into()) };
+        let res = d.decap(&shown);
+        let h = parse_hdr(pk)?;
+        if !h.s { match peek { Ok(LabelorFragId::FragId(6)) => {}, other => return Some(format!("continuation packet {i}: peek answered {:?}", other)) } }
+        else {
+            let md = match &res { Ok((DecapStatus::CompletedPkt(_, md), _)) => md.clone(), Ok((DecapStatus::FragmentedPkt(md), _)) => md.clone(), other => return Some(format!("packet {i} not accepted: {:?}", other.as_ref().map(|x| x.1).map_err(|x| &x.0))) };
+            match peek { Ok(LabelorFragId::Lbl(l)) => if h.lt == 3 || l != md.label() { return Some(format!("peek label {:?} vs decap label {:?}", l, md.label())); },
+                Err(GetLabelorFragIdError::ErrLabelReuse) => if h.lt != 3 { return Some("re-use error for a packet carrying its label".into()); },
+                other => return Some(format!("start/complete packet: peek answered {:?}", other)) }
+        }
+        if let Ok((DecapStatus::CompletedPkt(b, _), _)) = res { let _ = d.provision_storage(b); }
+    }
+    None
+}
+fn g_peek() -> Vec<P> {
+    let mut v = vec![];
+    for &pl in &[0i64, 1, 2, 3, 10, 100, 5000] { for lk in [0i64, 1, 2] { for &bl in &[11i64, 13, 14, 17, 20, 100, 4097, 6000] { for before in [0i64, 1] { for tr in [0i64, 1, 5] { if before == 1 && lk == 2 { continue; } v.push(vec![pl, lk, bl, before, tr]); } } } } }
+    v
+}
+
+// ----------------------------------------------------------------------------------------------------------------
+// 9. utils structs: [kind, pdu_len, label_kind, ptype, total]
+fn s_utils(p: &P) -> Option<String> {
+    let (kind, pl, lk, pt, total) = (p[0], p[1] as usize, p[2], p[3] as u16, p[4] as u16);
+    let label = label_of(lk); let lb = lbytes(&label); let pdu = pdu_of(pl);
+    let mut buf = vec![0u8; pl + 32];
+    no_panic(|| match kind {
+        0 => { let x = GseCompletePacket::new((2 + lb.len() + pl) as u16, pt, label, &pdu); x.generate(&mut buf);
+               let n = 4 + lb.len() + pl;
+               let mut exp = generate_gse_header(&dvb_gse_rust::gse_decap::read_gse_header(0xC000).unwrap().1, &label.get_type(), (n - 2) as u16).to_be_bytes().to_vec(); exp.extend_from_slice(&pt.to_be_bytes()); exp.extend_from_slice(&lb); exp.extend_from_slice(&pdu);
+               if buf[..n] != exp[..] { return Some("generated complete packet differs from the wire format".to_string()); }
+               match GseCompletePacket::parse(&buf[..n]) { Ok(y) if y == x => None, other => Some(format!("parse(generate(x)) = {:?}", other)) } }
+        1 => { let x = GseFirstFragPacket::new((5 + lb.len() + pl) as u16, 7, total, pt, label, &pdu); x.generate(&mut buf);
+               let n = 7 + lb.len() + pl;
+               if buf[2] != 7 || buf[3..5] != total.to_be_bytes() || buf[5..7] != pt.to_be_bytes() || buf[7..7 + lb.len()] != lb[..] || buf[7 + lb.len()..n] != pdu[..] { return Some("generated first fragment differs from the wire format".to_string()); }
+               match GseFirstFragPacket::parse(&buf[..n]) { Ok(y) if y == x => None, other => Some(format!("parse(generate(x)) = {:?}", other)) } }
+        2 => { let x = GseIntermediatePacket::new((1 + pl) as u16, 7, &pdu); x.generate(&mut buf); let n = 3 + pl;
+               if buf[2] != 7 || buf[3..n] != pdu[..] { return Some("generated intermediate fragment differs".to_string()); }
+               match GseIntermediatePacket::parse(&buf[..n]) { Ok(y) if y == x => None, other => Some(format!("parse(generate(x)) = {:?}", other)) } }
+        _ => { let x = GseEndFragPacket::new((5 + pl) as u16, 7, &pdu, 0x01020304); x.generate(&mut buf); let n = 7 + pl;
+               if buf[2] != 7 || buf[3..3 + pl] != pdu[..] || buf[3 + pl..n] != [1, 2, 3, 4] { return Some("generated end fragment differs".to_string()); }
+               match GseEndFragPacket::parse(&buf[..n]) { Ok(y) if y == x => None, other => Some(format!("parse(generate(x)) = {:?}", other)) } }
+    }).unwrap_or(Some("utils panicked on a well-formed description".into()))
+}
+fn g_utils() -> Vec<P> {
+    let mut v = vec![];
+    for kind in 0..4i64 { for &pl in &[0i64, 1, 2, 10, 100, 4000] { for lk in [0i64, 1, 2, 3] { for &pt in &[0x0600i64, 0x0800, 0xFFFF] { for &total in &[10i64, 4095, 4096, 5002, 65535] { v.push(vec![kind, pl, lk, pt, total]); } } } } }
+    v
+}
+
+// ----------------------------------------------------------------------------------------------------------------
+// 10. extension constructor: [id, data_len]   and encap_ext round trip: [ptype, pdu_len, buf_len, chain selector, sent_before]
+fn s_ext_new(p: &P) -> Option<String> {
+    let (id, n) = (p[0] as u16, p[1] as usize);
+    let data = vec![0xABu8; n];
+    match no_panic(|| Extension::new(id, &data)) {
+        Err(_) => Some("Extension::new panicked".into()),
+        Ok(r) => { let table = [None, Some(0usize), Some(2), Some(4), Some(6), Some(8)];
+            let ok = id < 0x600 && (id < 0x100 || table[(id >> 8) as usize] == Some(n));
+            if r.is_ok() != ok { Some(format!("Extension::new({:#x}, {n} bytes) is_ok = {}", id, r.is_ok())) } else { None } }
+    }
+}
+fn s_ext_rt(p: &P) -> Option<String> {
+    use dvb_gse_rust::header_extension::{MandatoryHeaderExt, MandatoryHeaderExtensionManager};
+    struct Mgr; impl MandatoryHeaderExtensionManager for Mgr { fn is_mandatory_header_id_known(&self, id: u16) -> MandatoryHeaderExt { match id { 0x50 => MandatoryHeaderExt::Final(3), 0x51 => MandatoryHeaderExt::NonFinal(2), _ => MandatoryHeaderExt::Unknown } } }
+    let (pt, pl, bl, sel, before) = (p[0] as u16, p[1] as usize, p[2] as usize, p[3], p[4] != 0);
+    let mk = |id: u16, n: usize| Extension::new(id, &vec![0xC0 + n as u8; n]).unwrap();
+    let chain: Vec<Extension> = match sel { 0 => vec![mk(0x100, 0)], 1 => vec![mk(0x200, 2)], 2 => vec![mk(0x300, 4), mk(0x500, 8)], 3 => vec![mk(0x51, 2), mk(0x400, 6)], 4 => vec![mk(0x200, 2), mk(0x50, 3)], 5 => vec![mk(0x50, 3)], _ => vec![mk(0x100, 0), mk(0x200, 2), mk(0x51, 2), mk(0x300, 4)] };
+    // hypothesis of the round trip: the receiver's manager agrees with the sender on finality (0x50 is final: it must be the protocol type)
+    if chain.iter().any(|x| x.id() == 0x50) && pt != 0x50 { return None; }
+    let label = Label::ThreeBytesLabel([7, 8, 9]); let pdu = pdu_of(pl);
+    let mut e = enc();
+    let mut m = SimpleGseMemory::new(2, 70000, 0, 0); for _ in 0..2 { let _ = m.provision_storage(vec![0u8; 70000].into_boxed_slice()); }
+    let mut d = Decapsulator::new(m, DefaultCrc {}, Mgr);
+    if before { let mut big = vec![0u8; 64]; if let Ok(EncapStatus::CompletedPkt(n)) = e.encap(&[1], 9, EncapMetadata::new(0x0800, label), &mut big) { if let Ok((DecapStatus::CompletedPkt(b, _), _)) = d.decap(&big[..n as usize]) { let _ = d.provision_storage(b); } } }
+    let snap = e.clone();
+    let mut buf: Vec<u8> = (0..bl).map(|i| i as u8 ^ 0x77).collect(); let orig = buf.clone();
+    let res = match no_panic(|| e.encap_ext(&pdu, 4, EncapMetadata::new(pt, label), &mut buf, chain.clone())) { Ok(r) => r, Err(_) => return Some("encap_ext panicked".into()) };
+    let st = match res { Err(_) => { if buf != orig { return Some("Err but the buffer was modified".into()); } if e != snap { return Some("Err but the encapsulator state changed".into()); } return None; } Ok(s) => s };
+    let last = chain.last().unwrap();
+    if pt < 0x100 && !(last.id() == pt && last.id() < 0x100) { return Some("undecodable combination accepted".into()); }
+    let mut pkts = vec![]; let mut cur = st;
+    loop { match cur { EncapStatus::CompletedPkt(n) => { pkts.push(buf[..n as usize].to_vec()); break; }
+        EncapStatus::FragmentedPkt(n, c) => { let n = n as usize; if n > bl { return Some("reported length exceeds the buffer".into()); }
+            pkts.push(buf[..n].to_vec()); buf = vec![0u8; bl.max(8)]; cur = match e.encap_frag(&pdu, &c, &mut buf) { Ok(s) => s, Err(_) => return None }; } }
+        if pkts.len() > 70000 { return None; } }
+    let h = parse_hdr(&pkts[0])?; if h.gse_len + 2 != pkts[0].len() { return Some(format!("reported length {} but GSE length + 2 = {}", pkts[0].len(), h.gse_len + 2)); }
+    for (i, pk) in pkts.iter().enumerate() {
+        match no_panic(|| d.decap(pk)) { Err(_) => return Some("decap panicked".into()),
+            Ok(Ok((DecapStatus::CompletedPkt(b, md), n))) => { if i + 1 != pkts.len() || n != pk.len() { return Some("completed at the wrong packet / wrong consumed length".into()); }
+                if md.pdu_len() != pl || b[..pl] != pdu[..] { return Some("PDU differs after the extension round trip".into()); }
+                if md.extensions() != &chain { return Some(format!("extension list differs: {:?}", md.extensions())); }
+                if md.protocol_type() != pt || md.label() != label { return Some("protocol type / label differs".into()); } }
+            Ok(Ok((DecapStatus::FragmentedPkt(_), n))) => if n != pk.len() { return Some("consumed length".into()); },
+            Ok(Ok(_)) => return Some("padding".into()),
+            Ok(Err((er, _))) => return Some(format!("packet {i} rejected: {:?}", er)) }
+    }
+    None
+}
+fn g_ext_new() -> Vec<P> { let mut v = vec![]; for id in 0..=0xFFFFi64 { if id < 0x700 || id % 257 == 0 { for n in 0..=10i64 { v.push(vec![id, n]); } } } v }
+fn g_ext_rt() -> Vec<P> {
+    let mut v = vec![];
+    for sel in 0..7i64 { for &pt in &[0x0800i64, 0x50, 0x51, 0x100] { for &pl in &[0i64, 1, 5, 40, 5000] { for &bl in &[12i64, 20, 24, 30, 40, 60, 4097, 8000] { for before in [0i64, 1] { v.push(vec![pt, pl, bl, sel, before]); } } } } }
+    v
+}
+
+// ----------------------------------------------------------------------------------------------------------------
+// 11. label policy histories, sender and receiver in lock step: [op, op, ...]
+//     op: 0..3 send label A(6B) / B(6B) / C(3B) / broadcast into a large buffer; 4 explicit re-use; 5 failing send of B (tiny buffer);
+//         6 reset both; 7 disable; 8 enable; 9 enable max 1; 10 enable max 2; 11 send A fragmented (first + end); 12 failing send of A via bad ptype
+fn s_policy(p: &P) -> Option<String> {
+    let labs = [Label::SixBytesLabel([1; 6]), Label::SixBytesLabel([2; 6]), Label::ThreeBytesLabel([3; 3]), Label::Broadcast, Label::ReUse];
+    let mut e = enc(); let mut d = dec(2, 64, 2);
+    let (mut enabled, mut maxc, mut run) = (true, 0u32, 0u32);
+    let mut prev: Option<Label> = None;       // label carried by the last start/complete packet of this frame
+    for &op in p {
+        match op {
+            0..=4 | 11 => {
+                let label = if op == 11 { labs[0] } else { labs[op as usize] };
+                let pdu = pdu_of(20); let mut buf = vec![0u8; if op == 11 { 24 } else { 64 }];
+                let st = match no_panic(|| e.encap(&pdu, 1, EncapMetadata::new(0x0800, label), &mut buf)) { Ok(Ok(s)) => s, Ok(Err(er)) => return Some(format!("send refused: {:?}", er)), Err(_) => return Some("encap panicked".into()) };
+                let n = match st { EncapStatus::CompletedPkt(n) => n, EncapStatus::FragmentedPkt(n, _) => n } as usize;
+                let h = parse_hdr(&buf[..n])?;
+                let substituted = h.lt == 3 && label != Label::ReUse;
+                if substituted {
+                    if !enabled { return Some("label replaced by re-use while re-use is disabled".into()); }
+                    if prev != Some(label) { return Some(format!("re-use marker although the preceding start/complete packet carried {:?}", prev)); }
+                    run += 1; if maxc > 0 && run > maxc { return Some(format!("{run} consecutive re-use packets with a maximum of {maxc}")); }
+                } else if h.lt != 3 { run = 0; }
+                // receiver
+                let r = d.decap(&buf[..n]);
+                let expect = if label == Label::ReUse { prev } else { Some(label) };
+                match (&r, expect) {
+                    (Ok((DecapStatus::CompletedPkt(_, md), _)), Some(l)) | (Ok((DecapStatus::FragmentedPkt(md), _)), Some(l)) => if md.label() != l { return Some(format!("PDU sent with {:?} delivered with {:?}", l, md.label())); },
+                    (Ok(_), None) => return Some("explicit re-use delivered although no label precedes it".into()),
+                    (Err(_), Some(_)) if label != Label::ReUse => return Some(format!("PDU with label {:?} not delivered: {:?}", label, r.as_ref().err().map(|x| &x.0))),
+                    _ => {}
+                }
+                if let Ok((DecapStatus::CompletedPkt(b, _), _)) = r { let _ = d.provision_storage(b); }
+                if let EncapStatus::FragmentedPkt(_, c) = st { let mut b2 = vec![0u8; 64]; if let Ok(EncapStatus::CompletedPkt(m)) = e.encap_frag(&pdu, &c, &mut b2) { if let Ok((DecapStatus::CompletedPkt(b, _), _)) = d.decap(&b2[..m as usize]) { let _ = d.provision_storage(b); } } }
+                if h.lt <= 1 { prev = Some(label); } else if h.lt == 2 { prev = None; }
+            }
+            5 | 12 => { let snap = e.clone(); let mut small = [0u8; 3];
+                let r = if op == 5 { e.encap(&[1, 2], 1, EncapMetadata::new(0x0800, labs[1]), &mut small) } else { e.encap(&[1, 2], 1, EncapMetadata::new(0x0200, labs[0]), &mut small) };
+                if r.is_ok() { return Some("failing send succeeded".into()); } if e != snap { return Some("failed send changed the encapsulator".into()); } }
+            6 => { e.reset_last_label(); d.reset_last_label(); prev = None; run = 0; }
+            7 => { e.disable_re_use_label(); enabled = false; maxc = 0; run = 0; }
+            8 => { e.enable_re_use_label(); enabled = true; maxc = 0; run = 0; }
+            9 => { e.enable_re_use_label_with_max_consecutive(1); enabled = true; maxc = 1; run = 0; }
+            _ => { e.enable_re_use_label_with_max_consecutive(2); enabled = true; maxc = 2; run = 0; }
+        }
+    }
+    None
+}
+fn g_policy() -> Vec<P> {
+    let ops: Vec<i64> = (0..13).collect();
+    let mut v = vec![];
+    for &a in &ops { for &b in &ops { for &c in &ops { for &d in &ops { v.push(vec![a, b, c, d]); if a == 0 && (b == 0 || b >= 5) { for &x in &[0i64, 1, 4] { v.push(vec![a, b, c, d, x, 0]); } } } } } }
+    for n in [254i64, 255] { let mut s = vec![100 + n]; for _ in 0..(n + 3) { s.push(0); } v.push(s); }
+    v
+}
+fn s_policy_max(p: &P) -> Option<String> {
+    // [100 + N, then sends of label A]: at most N consecutive re-use packets
+    let n = (p[0] - 100) as u8; let mut e = enc(); e.enable_re_use_label_with_max_consecutive(n);
+    let mut run = 0u32;
+    for _ in &p[1..] { let mut buf = vec![0u8; 32]; let st = e.encap(&[1], 1, EncapMetadata::new(0x0800, Label::SixBytesLabel([1; 6])), &mut buf).ok()?;
+        let m = match st { EncapStatus::CompletedPkt(m) => m, EncapStatus::FragmentedPkt(m, _) => m } as usize;
+        if parse_hdr(&buf[..m])?.lt == 3 { run += 1; if run > n as u32 { return Some(format!("{run} consecutive re-use packets with a maximum of {n}")); } } else { run = 0; } }
+    None
+}
+
+// ----------------------------------------------------------------------------------------------------------------
+// 12. default CRC: [pdu_len, label_len, total, ptype]
+fn s_crc(p: &P) -> Option<String> {
+    let (pl, ll, total, pt) = (p[0] as usize, p[1] as usize, p[2] as u16, p[3] as u16);
+    let pdu = pdu_of(pl); let lab: Vec<u8> = (0..ll).map(|i| 0x90 + i as u8).collect();
+    let mut d = total.to_be_bytes().to_vec(); d.extend_from_slice(&pt.to_be_bytes()); d.extend_from_slice(&lab); d.extend_from_slice(&pdu);
+    if (DefaultCrc {}).calculate_crc32(&pdu, pt, total, &lab) != crc_mpeg2(&d) { Some("DefaultCrc differs from CRC-32/MPEG-2 over total length | protocol type | label | PDU".into()) } else { None }
+}
+fn g_crc() -> Vec<P> {
+    let mut v = vec![];
+    for &pl in &[0i64, 1, 2, 9, 255, 256, 1000, 4088, 65535] { for ll in [0i64, 3, 6] { for &t in &[0i64, 1, 0x0FFF, 0x1000, 0x1234, 0xFFFF] { for &pt in &[0i64, 0x0800, 0xFFFF] { v.push(vec![pl, ll, t, pt]); } } } }
+    v
+}
+
+// ----------------------------------------------------------------------------------------------------------------
+struct Search { name: &'static str, props: &'static [&'static str], f: fn(&P) -> Option<String>, g: fn() -> Vec<P> }
+fn g_codec() -> Vec<P> { (0..=0xFFFFi64).map(|w| vec![w]).collect() }
+const SEARCHES: &[Search] = &[
+    Search { name: "codec", props: &["C14"], f: s_codec, g: g_codec },
+    Search { name: "crc", props: &["C12"], f: s_crc, g: g_crc },
+    Search { name: "ext_new", props: &["C13"], f: s_ext_new, g: g_ext_new },
+    Search { name: "frag", props: &["C02", "C06", "C09", "C11", "C18"], f: s_frag, g: g_frag },
+    Search { name: "enc", props: &["C01", "C02", "C06", "C09", "C11", "C12", "C18", "C04", "C15"], f: s_enc, g: g_enc },
+    Search { name: "policy", props: &["C04", "C15", "C09"], f: s_policy_dispatch, g: g_policy },
+    Search { name: "transfer", props: &["C01", "C02", "C03", "C12", "C11"], f: s_transfer, g: g_transfer },
+    Search { name: "decap_bytes", props: &["C05", "C10", "C16"], f: s_decap_bytes, g: g_decap_bytes },
+    Search { name: "history", props: &["C05", "C07", "C08", "C03", "C10"], f: s_history, g: g_history },
+    Search { name: "recover", props: &["C16", "C04"], f: s_recover, g: g_history },
+    Search { name: "memory", props: &["C17", "C07", "C08", "C16"], f: s_memory, g: g_memory },
+    Search { name: "peek", props: &["C19"], f: s_peek, g: g_peek },
+    Search { name: "utils", props: &["C20"], f: s_utils, g: g_utils },
+    Search { name: "ext_rt", props: &["C13", "C06", "C09", "C12", "C04", "C15"], f: s_ext_rt, g: g_ext_rt },
+];
+fn s_policy_dispatch(p: &P) -> Option<String> { if !p.is_empty() && p[0] >= 100 { s_policy_max(p) } else { s_policy(p) } }
+
+fn to_json(name: &str, p: &P, msg: &str) -> String {
+    format!("{{\"search\":\"{}\",\"params\":[{}],\"observed\":\"{}\"}}", name, p.iter().map(|x| x.to_string()).collect::<Vec<_>>().join(","), msg.replace('\\', "/").replace('"', "'"))
+}
+pub fn search(pid: &str, _obligations: &[String]) -> Option<String> {
+    for s in SEARCHES {
+        if !s.props.contains(&pid) { continue; }
+        for p in (s.g)() {
+            if let Some(msg) = std::panic::catch_unwind(|| (s.f)(&p)).unwrap_or(Some("the replay oracle itself panicked".into())) {
+                if msg.contains("oracle itself") { continue; }
+                return Some(to_json(s.name, &p, &msg));
+            }
+        }
+    }
+    None
+}
+pub fn replay(w: &str) -> Option<String> {
+    let name = w.split("\"search\":\"").nth(1)?.split('"').next()?.to_string();
+    let params: P = w.split("\"params\":[").nth(1)?.split(']').next()?.split(',').filter(|s| !s.trim().is_empty()).filter_map(|s| s.trim().parse().ok()).collect();
+    let s = SEARCHES.iter().find(|s| s.name == name)?;
+    std::panic::catch_unwind(|| (s.f)(&params)).ok()?
+}
+/// self-test: on the unchanged tree no search may report anything
+pub fn selftest() -> Vec<String> {
+    let mut out = vec![];
+    for s in SEARCHES { let mut n = 0; for p in (s.g)() { n += 1; if let Some(m) = (s.f)(&p) { out.push(to_json(s.name, &p, &m)); break; } } eprintln!("search {}: {} cases", s.name, n); }
+    out
+}
+#[allow(dead_code)]
+fn _unused() { let _ = drain; }
